@@ -58,6 +58,8 @@ def build(case):
     elif style < 0.45:
         kwargs['weights'] = {'cancel': 8, 'await_task': 6, 'spawn': 5, 'scope': 10}
     kwargs['start_times'] = (0, 0, 0, -5, 0.5, 7, 2.0 ** 53)
+    # now and then an activity runs a complete simulation of its own (nested run())
+    kwargs.setdefault('weights', {})['nested'] = 0.6
     return Gen(rng, **kwargs).program(), rng
 
 
@@ -126,6 +128,47 @@ def d16_canary():
         return [{'mechanism': 'run-ended-with-foreign:%s' % type(exc).__name__,
                  'msg': 'D16 canary ended with %r' % (exc,), 'case': {'canary': 'd16'}}]
     return []
+
+
+def d22_canary():
+    """Dedicated scenario for repaired defect D22: an activity that holds a lock around a
+    scope is closed by its parent in the time step in which a child of that scope failed with a
+    SystemExit: the scope answers the close with the SystemExit, the lock block is left by it
+    while the *closing* activity is the current one.  run() must end with that SystemExit."""
+    import usim
+    from usim import Scope, Lock, eternity
+
+    class Stop(SystemExit):
+        pass
+
+    async def bad():
+        raise Stop('stop requested')
+
+    async def fails():
+        raise KeyError('unrelated')
+
+    async def holder(lock):
+        async with lock:
+            async with Scope() as scope:
+                scope.do(bad())
+                await eternity
+
+    async def main():
+        lock = Lock()
+        async with Scope() as outer:
+            outer.do(holder(lock))
+            outer.do(fails())
+            await eternity
+
+    sess = Session()
+    root = main()
+    kind, exc = sess.run(root)
+    if kind == 'exc' and isinstance(exc, Stop):
+        return []
+    return [{'mechanism': 'lock-exit-assertion-while-owner-is-closed',
+             'msg': 'an activity holding a lock is closed while a child of an inner scope failed '
+                    'with SystemExit: run() ended with %r instead of that SystemExit' % (exc,),
+             'case': {'canary': 'd22'}}]
 
 
 def d15_canary():
@@ -220,6 +263,8 @@ def run_case(case):
         return run_threads(case)
     if case.get('canary') == 'd15':
         return {'evals': 1, 'sigs': [], 'stats': {'canary_runs': 1}, 'violations': d15_canary()}
+    if case.get('canary') == 'd22':
+        return {'evals': 1, 'sigs': [], 'stats': {'canary_runs': 1}, 'violations': d22_canary()}
     if case.get('canary') == 'd16':
         return {'evals': 1, 'sigs': [], 'stats': {'canary_runs': 1}, 'violations': d16_canary()}
     program, rng = build(case)
@@ -227,5 +272,6 @@ def run_case(case):
     if case['index'] == 0 and case.get('plan') is None:
         result['violations'] += d16_canary()
         result['violations'] += d15_canary()
-        result['stats']['canary_runs'] = 2
+        result['violations'] += d22_canary()
+        result['stats']['canary_runs'] = 3
     return result
